@@ -183,6 +183,65 @@ pub fn run_schedule(kind: Kind, n: usize, acts: &[char]) -> Outcome {
     Outcome { delivered: d, model_acts }
 }
 
+
+/// Two emitters on one task stream (the stdout and stderr pumps of a real task), single-stepped
+/// through the yield points of the real `TaskEmitter::emit` under a random schedule. Whatever the
+/// schedule, the stream's frames must be recorded, logged and replayed to a late subscriber as
+/// 0,1,2,… in order.
+fn two_emitter_case(rep: &mut Report, rng: &mut Rng) {
+    let scratch = Scratch::new("c06e");
+    let data_dir = scratch.path().join("data");
+    let ws = scratch.path().join("ws");
+    std::fs::create_dir_all(&ws).unwrap();
+    let setup_rt = tokio::runtime::Builder::new_current_thread().enable_all().build().unwrap();
+    let app = Arc::new(ripd::verif_export::VerifApp::new(data_dir.clone(), ws.clone()));
+    let task = Arc::new(setup_rt.block_on(app.register_task()));
+    let task_id = task.task_id().to_string();
+    let per = rng.range(1, 3) as usize;
+    let nworkers = rng.range(2, 3) as usize;
+    let workers: Vec<Box<dyn FnOnce() + Send>> = (0..nworkers)
+        .map(|w| {
+            let t = task.clone();
+            Box::new(move || {
+                let rt = tokio::runtime::Builder::new_current_thread().enable_all().build().unwrap();
+                rt.block_on(async {
+                    for k in 0..per {
+                        t.emit_delta(&format!("w{w}.{k}")).await;
+                    }
+                });
+            }) as Box<dyn FnOnce() + Send>
+        })
+        .collect();
+    let mut s = Scheduler::new(workers);
+    let mut schedule = Vec::new();
+    for _ in 0..(nworkers * per * 5) {
+        let id = rng.below(nworkers as u64) as usize;
+        schedule.push(id);
+        if s.step_or_block(id, 20) == "blocked" {
+            s.drain();
+        }
+    }
+    s.finish();
+    let total = (nworkers * per) as u64;
+    // (1) the log: the task stream's frames in file order
+    let logged: Vec<u64> = crate::store::read_frames(&data_dir.join("verif-events.jsonl")).iter().filter(|f| f["session_id"].as_str() == Some(task_id.as_str())).filter_map(|f| f["seq"].as_u64()).collect();
+    // (2) a late subscriber (replays the recorded frames)
+    let uri = format!("/tasks/{task_id}/events");
+    let late: Vec<u64> = setup_rt.block_on(async { crate::http::sse_collect(&app.router, &uri, 300, |_| false).await }).iter().filter_map(|v| v["seq"].as_u64()).collect();
+    let want: Vec<u64> = (0..total).collect();
+    rep.evaluations += 1;
+    rep.traces_validated += 1;
+    rep.count("two_emitter_cases");
+    rep.nontrivial_case(&format!("two-emitters|{nworkers}|{per}|{schedule:?}"));
+    let case = json!({"emitters": nworkers, "frames_each": per, "schedule": schedule});
+    if logged != want {
+        rep.oracle_failure("C06|two-emitters|log-order", &format!("two emitters on one task stream: the log holds seqs {logged:?}, expected {want:?}"), case.clone());
+    }
+    if late != want {
+        rep.oracle_failure("C06|two-emitters|late-subscriber", &format!("two emitters on one task stream: a late subscriber received {late:?}, expected {want:?}"), case);
+    }
+}
+
 /// A subscriber that attached before the stream started and does not read while more frames than
 /// the broadcast channel holds are emitted.
 fn lag_case(rep: &mut Report, extra: usize) {
@@ -294,6 +353,10 @@ pub fn run(opts: &Opts) -> Report {
         let len = rng.range(2, 20);
         let acts: Vec<char> = (0..len).map(|_| if rng.chance(1, 3) { 's' } else { 'p' }).collect();
         cases.push((k, n, acts));
+    }
+    let n_two = if opts.thorough { 300 } else { 30 } * opts.scale;
+    for _ in 0..n_two {
+        two_emitter_case(&mut rep, &mut rng);
     }
     lag_case(&mut rep, 50);
     for (kind, n, acts) in cases {
